@@ -104,17 +104,18 @@ def build(engine, log, clock):
         return {"src": "kid", "id": "k%d" % n["k"]}
     cfg = {"id": "m", "initial": "idle", "on": {"TICK": {"actions": ["tick"]}},
            "states": {
-               "idle": {"on": {"WORK": "busy", "FIN": "fin", "FAIL": "failing", "SLOW": {"actions": ["slow"]},
+               "idle": {"after": {"500": {"actions": ["longtick"]}},
+                        "on": {"WORK": "busy", "FIN": "fin", "FAIL": "failing", "SLOW": {"actions": ["slow"]},
                                "SPAWN": {"actions": [{"type": "xstate.spawnChild", "params": spawn_params}]},
                                "DELAY": {"actions": [{"type": "xstate.raise", "params": {
-                                   "event": "TICK", "delay": 20}}]},
+                                   "event": "TICK", "delay": 20 if engine == "async" else 400}}]},
                                "STOPME": {"actions": ["stop_self", "after_stop_marker"]}}},
                "busy": {"after": {"15": {"target": "idle", "actions": ["timeout"]}},
                         "invoke": {"src": "svc", "id": "i1", "onDone": {"target": "idle", "actions": ["svcdone"]}},
                         "on": {"BACK": "idle", "SLOW": {"actions": ["slow"]}}},
                "failing": {"invoke": {"src": "bad", "id": "i2"}},
                "fin": {"type": "final", "output": {"ok": True}}}}
-    acts = {k: mk(k) for k in ("tick", "timeout", "svcdone", "after_stop_marker")}
+    acts = {k: mk(k) for k in ("tick", "timeout", "svcdone", "after_stop_marker", "longtick")}
     acts["slow"] = slow
     acts["stop_self"] = stop_self
     return create_machine(cfg, logic=MachineLogic(actions=acts, services={"svc": svc, "bad": bad, "kid": kid}))
@@ -403,7 +404,18 @@ def run_sync(res, script, idx):
 
 def census_sync(J, it, log, kids):
     J.res.count("census.after-stop")
+    # timer / delayed-send threads are signalled by stop() and wake at once; the delays in the
+    # template (400-500 ms) are far longer than the grace, so a thread that was NOT released is
+    # still waiting when the grace ends.  Actor threads poll every 10 ms and get longer.
     t1 = time.time()
+    def waiting():
+        return [t for t in observe.engine_threads() if t.name.startswith(("after-", "send-"))]
+    while waiting() and time.time() - t1 < 0.15:
+        time.sleep(0.003)
+    left = [t.name.split("::")[0] for t in waiting()]
+    if left:
+        J.v("C14:timer-or-send-thread-not-released-by-stop",
+            "threads still waiting 150 ms after stop() returned: %s" % left[:3])
     while observe.engine_threads() and time.time() - t1 < 1.5:
         time.sleep(0.004)
     left = [t.name.split("::")[0] for t in observe.engine_threads()]
